@@ -56,7 +56,7 @@ def mul (x y : BOp α) : Except Label (BOp α) :=
     + ((one - x.a) * y.a * x.b * y.u + (one - y.a) * x.a * y.b * x.u) / (one - a)
   let d := x.d + y.d - x.d * y.d
   let u := x.u * y.u
-    + ((one - y.a) * x.b * y.u + (one - x.b) * y.b * x.u) / (one - a)
+    + ((one - y.a) * x.b * y.u + (one - x.a) * y.b * x.u) / (one - a)
   tryNew b d u a
 
 /-- `BOpinion::comul` (src/bi.rs:178-189) -/
@@ -66,7 +66,7 @@ def comul (x y : BOp α) : Except Label (BOp α) :=
   let b := x.b + y.b - x.b * y.b
   let d := x.d * y.d
     + (x.a * (one - y.a) * x.d * y.u + y.a * (one - x.a) * y.d * x.u) / a
-  let u := x.u * y.u + (y.a * x.b * y.u + x.a * y.b * x.u) / a
+  let u := x.u * y.u + (y.a * x.d * y.u + x.a * y.d * x.u) / a
   tryNew b d u a
 
 /-- `BOpinion::cfuse` (src/bi.rs:192-206) -/
@@ -137,7 +137,7 @@ def deduceK (w : BOp α) (c0 c1 : α × α × α) (ay : α) : α × DCase :=
   else
     let pyx := b0 * w.a + b1 * rvax + ay * (u0 * w.a + u1 * rvax)
     let px := w.projection
-    let r := b1 + ay * (one - b1 - d0)
+    let r := if bp then b1 + ay * (one - b1 - d0) else b0 + ay * (one - b0 - d1)
     match gt pyx r, gt px w.a with
     | false, false =>
       if bp then (w.a * w.u * (bi - b1) / (px * ay), .IIA1)
